@@ -12,7 +12,7 @@ func init() {
 	register(&PropertyDef{
 		ID: "C07",
 		Explanation: "The rejections without which header parsing is not canonical, and the hand-back of the over-read, decided as dominance facts of the accepting returns of internal/format: (R07.1) exact intro line; stanza line has the exact prefix, at least a type, and every argument (type included: the loop covers all of args) passes isValidString, whose bounds are 33 and 126 and which rejects the empty string; body lines decode strictly without padding and without CR/LF, are at most BytesPerLine long, and the body ends only on a shorter line; the footer has exactly one argument decoding strictly to 32 bytes; " +
-			"(R07.2) marshal and parse side use the same constants (prefixes, intro, base64 variant, 64/48); (R07.3) the payload reader is the bufio.Reader itself iff it is the input, otherwise MultiReader(buffered bytes, input) in that order; (R07.4) error returns carry no header and no reader; (R07.5) StanzaReader failures are sticky.",
+			"(R07.2) marshal and parse side use the same constants (prefixes, intro, base64 variant, 64/48); (R07.3) the payload reader is the bufio.Reader itself iff it is the input, otherwise MultiReader(buffered bytes, input) in that order; (R07.4) error returns carry no header and no reader; (R07.5) StanzaReader failures are sticky. (R07.6) no loop of internal/format takes a line from the input and goes round again without keeping anything of it.",
 		NotDecided:  "the universal round trip 'every accepted byte string re-serialises to itself' (a value property over all inputs): only its necessary rejections are decided; writeWrapped's column arithmetic.",
 		Assumptions: []string{"base64.RawStdEncoding.Strict() rejects padding and non-canonical trailing bits", "bufio.Reader.ReadBytes returns data ending in the delimiter or an error"},
 		Run:         runC07,
